@@ -642,6 +642,9 @@ func vSymParams(max int) (vParamSet, []byte) {
 			body = append(body, 0xFF, 0xFF, 0xFF, 0xFF)
 		} else {
 			ps.vals[i] = nondetBytes(1)
+			if vParam("BIGVAL", 0) == 0 && nondetBool() {
+				ps.vals[i] = []byte{} // an empty value is not NULL
+			}
 			if big := vParam("BIGVAL", 0); big > 0 {
 				// a large value (BIGVAL-1 filler bytes and a symbolic last byte): the
 				// message is bigger than the reader's 4 KiB allocation granule
